@@ -1316,7 +1316,11 @@ func (s *PrintCtx) appendError(err error) {
 func (s *PrintCtx) appendValue(val any) {
 	switch z := val.(type) {
 	case nil:
-		s.pcAppendStringValue("<nil>")
+		if s.jsonMode {
+			s.pcAppendStringValue("null")
+		} else {
+			s.pcAppendStringValue("<nil>")
+		}
 
 	case ObjectSerializer:
 		// pc.useColor = !s.noColor
@@ -1744,10 +1748,10 @@ var safeSet = [utf8.RuneSelf]bool{
 }
 
 func (s *PrintCtx) appendBytes(z []byte) {
-	_, err := s.Write(z)
-	if err != nil {
-		hintInternal(err, "PrintCtx: appendBytes failed")
-	}
+	// a byte slice is printed as a quoted, escaped string in every
+	// format: raw bytes could break the line, the pair or the JSON
+	// framing, and could carry terminal escape sequences.
+	s.appendQuotedString(string(z))
 }
 
 func (s *PrintCtx) appendStringSlice(val []string) {
